@@ -169,7 +169,12 @@ def report(prop, tier, seed, results, extra, kf_entries, a, t0):
             else:
                 unknown.append((r.unit_id, ob))
         if n_here == 0:
-            vac.append((r.unit_id, "no obligation generated"))
+            if any(ob["kind"] != "measured" for ob in r.obligations):
+                # the unit has obligations, none of the kinds this property collects (e.g. an unsigned
+                # instantiation has no signed-overflow obligation for C36): it contributes nothing here
+                functions.pop()
+            else:
+                vac.append((r.unit_id, "no obligation generated"))
     lines = []
     rc = 0
     # known findings: print those whose witness still fails natively
